@@ -176,6 +176,10 @@ func (e *elem) getValue(path string) (string, error) {
 	if err != nil {
 		return "", err
 	}
+	if !targetNode.isLeaf() {
+		// the path names a domain, not a key: there is no value (the getters answer with their default)
+		return "", fmt.Errorf("%s is a domain, not a key", path)
+	}
 	return targetNode.value, nil
 }
 
